@@ -674,12 +674,38 @@ def shrink(chk: Check, case, res, override=None):
     return small, res2
 
 
+def degenerate_configs(chk: Check):
+    """configurations outside the theorems' hypotheses (N >= 2, v_min < v_max, n_step >= 1): the model
+    answers `reject`; the implementation must raise — or, should it ever accept one, still conserve mass"""
+    out = driver_run(chk, ["reset", "c51 cfg 1 0 1", "c51 cfg 5 1 1", "c51 cfg 5 2 1", "c51 cfg 5 0 1",
+                           "c51 hyper 1/2 0 0 0", "c51 nonsense"])
+    if out[1:] != ["reject", "reject", "reject", "ok", "reject", "bad-op"]:
+        raise InfraError(f"C18: model does not reject degenerate configurations: {out}")
+    row = {"r": 0.5, "d": 0, "a": 0, "idx": 0, "q": [0.0], "q_decoy": [0.0], "pT": [[0.5]], "p_decoy": [[0.0]],
+           "lp": [[-1.0]], "lp_decoy": [[0.0]]}
+    for N, vmin, vmax, n_step in [(1, 0.0, 1.0, 1), (5, 1.0, 1.0, 1), (5, 2.0, 1.0, 1), (5, 0.0, 1.0, 0)]:
+        r = dict(row, pT=[[0.5] * N], p_decoy=[[0.0] * N], lp=[[-1.0] * N], lp_decoy=[[0.0] * N])
+        case = {"kind": "stub", "exact": True, "N": N, "vmin": vmin, "vmax": vmax, "gamma": 0.5, "n_step": n_step,
+                "nstep_on": False, "combined": False, "per": True, "A": 1, "one": [r], "nst": None, "seed": 0}
+        try:
+            _, raw = run_impl(case)
+        except Exception as e:  # noqa: BLE001
+            chk.case(["degenerate", N, vmin, vmax, n_step], nontrivial=False,
+                     tags=[f"degenerate-rejected-{type(e).__name__}"])
+            continue
+        mass = sum(raw["proj0"][0])
+        chk.case(["degenerate", N, vmin, vmax, n_step], nontrivial=False, tags=["degenerate-accepted"])
+        if not (abs(mass - 0.5 * N) <= 1e-6):
+            chk.violation(f"degenerate configuration N={N} v=[{vmin},{vmax}] n_step={n_step} is accepted and the "
+                          f"projection has mass {mass} instead of {0.5 * N}", case)
+
+
 # ----------------------------------------------------------------------------- check
 def run(chk: Check) -> None:
     rng = chk.rng
     quick = chk.tier == "quick"
-    n_stub = 140 if quick else 1500
-    n_real = 40 if quick else 400
+    n_stub = 120 if quick else 1500
+    n_real = 32 if quick else 400
     chk.rule = ("stub suite: random configurations (2..51 atoms, Δ a power of two, dyadic v_min, γ in {1/4,1/2,3/4,1}, "
                 "n_step 1..3, batch 1..6, 1..4 actions, per / n-step / combined on and off) with rewards inside, "
                 "exactly on atoms, above, below and on the edge of the support and done in {0,1}; target distributions "
@@ -709,6 +735,7 @@ def run(chk: Check) -> None:
     for _ in range(n_real):
         cases.append((gen_real(rng), [], None))
 
+    degenerate_configs(chk)
     n_stub_run = n_stub_diff = n_real_run = n_real_bad = 0
     for case, tags, origin in cases:
         if case.get("kind") == "real":
